@@ -622,6 +622,8 @@ class Truth:
     """path -> role at its last declaration ("out" | "vol")."""
     last_written: dict[str, str] = field(default_factory=dict)
     """path -> sha256 of what a step run wrote last."""
+    written_as: dict[str, str] = field(default_factory=dict)
+    """path -> role ("out" | "vol") the path had in the plan when a step wrote it last."""
     raced: dict[str, set] = field(default_factory=dict)
     """path -> contents the user gave the file WHILE a build was running, after which no step has
     rewritten it: StepUp hashes outputs after the command ended, so it may have recorded either."""
@@ -630,12 +632,15 @@ class Truth:
         self.sources = model.sources()
         self.ever_output.update(model.outputs())
 
-    def note_build(self, runs, external=()):
+    def note_build(self, runs, external=(), model: CModel | None = None):
         """Step writes of one build, and what the user wrote while it was running."""
+        roles = model.outputs() if model is not None else {}
         for run in runs:
             for path, digest in run.writes:
                 self.last_written[path] = digest
                 self.raced.pop(path, None)
+                if path in roles:
+                    self.written_as[path] = roles[path]
         for _, edits in external:
             for edit in edits:
                 if edit[0] == "write":
